@@ -81,6 +81,14 @@ var detachCmds = [][]string{
 	{"AOF", "0"},
 }
 
+func shortCmd(cmd []string) string {
+	s := t38.CmdString(cmd)
+	if len(s) > 300 {
+		s = s[:150] + fmt.Sprintf(" ...(%d bytes)... ", len(s)-300) + s[len(s)-150:]
+	}
+	return s
+}
+
 func fileHas(path, mk string) bool {
 	b, err := os.ReadFile(path)
 	if err != nil {
@@ -121,11 +129,24 @@ func fileSize(path string) int64 {
 }
 
 type bbCase struct {
-	Kinds  []int `json:"kinds"`  // write kinds of the pipelined segment (-1: GET of a large value, reply 20-70 KB; 8..15: a write whose log record is 12-40 KB)
-	Shrink bool  `json:"shrink"` // AOFSHRINK is run to completion right before the segment is sent
-	Detach int   `json:"detach"` // -1: none, else index into detachCmds appended to the segment
-	Split  bool  `json:"split"`  // send each command as its own segment
-	Sleep  bool  `json:"sleep"`  // the segment ends with SLEEP 0.05 (holds the shared lock: keeps the batch open)
+	Kinds  []int `json:"kinds"`          // write kinds of the pipelined segment (-1: GET of a large value, reply 20-70 KB; 8..15: a write whose log record is 12-40 KB)
+	Shrink bool  `json:"shrink"`         // AOFSHRINK is run to completion right before the segment is sent
+	Detach int   `json:"detach"`         // -1: none, else index into detachCmds appended to the segment
+	Split  bool  `json:"split"`          // send each command as its own segment
+	Sleep  bool  `json:"sleep"`          // the segment ends with SLEEP 0.05 (holds the shared lock: keeps the batch open)
+	Huge   int   `json:"huge,omitempty"` // 1: one more write whose log record is 5-9 MiB; 2: an EVAL that makes 90000 writes (about 5 MiB of log); the marker is at the END of the record
+	HugeAt int   `json:"huge_at,omitempty"`
+}
+
+// hugeWriteCmd returns a write with megabytes of log and the text that marks
+// the END of its log record (a flush that writes only part of the pending
+// bytes leaves the head of the record in the file, not its end).
+func hugeWriteCmd(kind int, mk string) (cmd []string, tail string) {
+	if kind == 2 {
+		return []string{"EVAL", "for i = 1, 90000 do tile38.call('set', 'kloop', 'i' .. i, 'point', (i % 1000) / 10 - 50, i / 1000) end return tile38.call('set', 'kloop', ARGV[1], 'point', 1, 2)", "0", mk}, mk
+	}
+	n := 5<<20 + (markerSeq%5)<<20
+	return []string{"SET", "khuge", "h", "STRING", strings.Repeat("H", n) + mk}, mk
 }
 
 var bigOnce sync.Once
@@ -156,6 +177,12 @@ func runBlackBox(t ev.Failer, c *ev.Collector, srv *t38.Srv, bc bbCase) {
 		mks = append(mks, mk)
 		cmds = append(cmds, cmd)
 		seg = append(seg, t38.EncodeCmd(cmd...)...)
+		if bc.Huge > 0 && i == bc.HugeAt%len(bc.Kinds) {
+			hcmd, tail := hugeWriteCmd(bc.Huge, marker())
+			mks = append(mks, tail)
+			cmds = append(cmds, hcmd)
+			seg = append(seg, t38.EncodeCmd(hcmd...)...)
+		}
 	}
 	if bc.Sleep {
 		seg = append(seg, t38.EncodeCmd("SLEEP", "0.05")...)
@@ -198,14 +225,16 @@ func runBlackBox(t ev.Failer, c *ev.Collector, srv *t38.Srv, bc bbCase) {
 				c.Fail(t, "c08-harness", fmt.Sprintf("command %v failed: %v %v", cmd, v, err), bc)
 			}
 			if mks[i] != "" && !fileHasSince(srv.AOFPath(), off0, mks[i]) {
-				c.Fail(t, "ack-before-flush", fmt.Sprintf("acknowledged %s is not in appendonly.aof at the time the reply was read", t38.CmdString(cmd)), bc)
+				c.Fail(t, "ack-before-flush", fmt.Sprintf("acknowledged %s is not in appendonly.aof at the time the reply was read", shortCmd(cmd)), bc)
 			}
 		}
 		return
 	}
-	if err := conn.SendRaw(seg); err != nil {
-		c.Fail(t, "c08-harness", err.Error(), bc)
-	}
+	// sent from a goroutine: with megabytes in the segment the server's replies fill the socket while
+	// the client is still writing (a client that does not read meanwhile deadlocks with any server)
+	sendErr := make(chan error, 1)
+	go func() { sendErr <- conn.SendRaw(seg) }()
+	defer func() { <-sendErr }()
 	for i := range cmds {
 		v, err := conn.Recv()
 		if err != nil || v.IsErr() {
@@ -217,7 +246,7 @@ func runBlackBox(t ev.Failer, c *ev.Collector, srv *t38.Srv, bc bbCase) {
 			if bc.Detach >= 0 {
 				what = "segment ending in " + detachCmds[bc.Detach][0] + " (connection detaches)"
 			}
-			c.Fail(t, "ack-before-flush", fmt.Sprintf("%s: acknowledged %s is not in appendonly.aof at the moment its reply was read", what, t38.CmdString(cmds[i])), bc)
+			c.Fail(t, "ack-before-flush", fmt.Sprintf("%s: acknowledged %s is not in appendonly.aof at the moment its reply was read", what, shortCmd(cmds[i])), bc)
 		}
 	}
 }
@@ -239,6 +268,11 @@ func TestC08_BlackBox(t *testing.T) {
 			Detach: rapid.IntRange(-4, len(detachCmds)-1).Draw(rt, "detach"),
 			Split:  rapid.IntRange(0, 5).Draw(rt, "split") == 0,
 			Sleep:  rapid.IntRange(0, 3).Draw(rt, "sleep") == 0,
+			Huge:   rapid.IntRange(-140, 2).Draw(rt, "huge"),
+			HugeAt: rapid.IntRange(0, 11).Draw(rt, "hugeat"),
+		}
+		if bc.Huge < 0 {
+			bc.Huge = 0
 		}
 		for i, k := range bc.Kinds {
 			if k < -1 {
@@ -264,6 +298,9 @@ func TestC08_BlackBox(t *testing.T) {
 		runBlackBox(rt, c, srv, bc)
 		if bc.Detach >= 0 {
 			c.Label("detach:" + detachCmds[bc.Detach][0])
+		}
+		if bc.Huge > 0 {
+			c.Label([]string{"", "huge-write-5-9MiB", "script-with-90000-writes"}[bc.Huge])
 		}
 		big := false
 		writes := 0
